@@ -100,16 +100,18 @@ inductive Resp where
 deriving Repr, DecidableEq, Inhabited
 
 /-- `player.Analyze(ctx, p)` on the cached engine: `Analyze` panics when the sizes differ, a nil player is a nil
-dereference; the engine state after the call is the cached one from now on -/
+dereference; the engine state after the call is the cached one from now on.  After a panic the process is gone; the
+model keeps the key and drops the engine.  (The cache is taken apart and rebuilt so that the compiled driver updates
+the engine's table in place instead of copying it.) -/
 def callPlayer {P M : Type} [DecidableEq M] (env : Env P M) (o : Oracle M) (c : Cache M) (p : P) :
-    Except Err ((List M × Int) × Cache M) :=
-  match c.player with
-  | none => .error (.panic "nil *MinimaxAI")
-  | some pl =>
-    if pl.size != env.size p then .error (.panic "Analyze: wrong size") else
-    match Search.analyze (env.game pl.size) pl.cfg o p pl.eng with
-    | .error e => .error e
-    | .ok ((pv, v, _), eng) => .ok ((pv, v), { c with player := some { pl with eng := eng } })
+    Except Err (List M × Int) × Cache M :=
+  match c with
+  | ⟨size, depth, precise, none⟩ => (.error (.panic "nil *MinimaxAI"), ⟨size, depth, precise, none⟩)
+  | ⟨size, depth, precise, some ⟨psize, cfg, eng⟩⟩ =>
+    if psize != env.size p then (.error (.panic "Analyze: wrong size"), ⟨size, depth, precise, none⟩) else
+    match Search.analyze (env.game psize) cfg o p eng with
+    | .error e => (.error e, ⟨size, depth, precise, none⟩)
+    | .ok ((pv, v, _), eng) => (.ok (pv, v), ⟨size, depth, precise, some ⟨psize, cfg, eng⟩⟩)
 
 /-- `(*server).Analyze`.  `o` is the environment of the one `MinimaxAI.Analyze` call (move order of `sort.Sort`;
 the cancel flag stays clear for a context that is never cancelled). -/
@@ -118,10 +120,11 @@ def analyze {P M : Type} [DecidableEq M] (env : Env P M) (o : Oracle M) (s : Ser
   match env.parseTPS position with
   | .error e => (.error e, s)
   | .ok p =>
-    let c := s.analyzeCache.getPlayer env (env.size p) depth precise
-    match callPlayer env o c p with
-    | .error e => (.error e, { s with analyzeCache := c })
-    | .ok ((pv, v), c) => (.ok (.analyze (pv.map env.formatMove) v), { s with analyzeCache := c })
+    match s with
+    | ⟨ac, ic⟩ =>
+      match callPlayer env o (ac.getPlayer env (env.size p) depth precise) p with
+      | (.error e, c) => (.error e, ⟨c, ic⟩)
+      | (.ok (pv, v), c) => (.ok (.analyze (pv.map env.formatMove) v), ⟨c, ic⟩)
 
 /-- the loop `for _, mstr := range req.Moves { mv, e := ptn.ParseMove(mstr); if e != nil { return nil, e } … }` -/
 def parseMoves {P M : Type} (env : Env P M) : List Bytes → R (List M)
@@ -150,19 +153,20 @@ def isPositionInTak {P M : Type} [DecidableEq M] (env : Env P M) (o : Oracle M) 
   match env.parseTPS position with
   | .error e => (.error e, s)
   | .ok p =>
-    let c := s.istakCache.getPlayer env (env.size p) 1 true
-    match env.pass p with
-    | .error _ => (.error (.panic "Analyze: nil position"), { s with istakCache := c })
-    | .ok q =>
-      match callPlayer env o c q with
-      | .error e => (.error e, { s with istakCache := c })
-      | .ok ((pv, v), c) =>
-        let s := { s with istakCache := c }
-        if v > Facts.winThreshold then
-          match pv with
-          | [] => (.error (.panic "pv[0]: index out of range"), s)
-          | m :: _ => (.ok (.isInTak true (env.formatMove m)), s)
-        else (.ok (.isInTak false []), s)
+    match s with
+    | ⟨ac, ic⟩ =>
+      let c := ic.getPlayer env (env.size p) 1 true
+      match env.pass p with
+      | .error _ => (.error (.panic "Analyze: nil position"), ⟨ac, c⟩)
+      | .ok q =>
+        match callPlayer env o c q with
+        | (.error e, c) => (.error e, ⟨ac, c⟩)
+        | (.ok (pv, v), c) =>
+          if v > Facts.winThreshold then
+            match pv with
+            | [] => (.error (.panic "pv[0]: index out of range"), ⟨ac, c⟩)
+            | m :: _ => (.ok (.isInTak true (env.formatMove m)), ⟨ac, c⟩)
+          else (.ok (.isInTak false []), ⟨ac, c⟩)
 
 /-- one RPC; `analyze` and `isInTak` carry the environment of their engine call -/
 inductive Req (M : Type) where
